@@ -1231,12 +1231,16 @@ def _bool_if_deep(s):
     return _bool_if(s)
 
 
-def _cannot_raise(stmts):
-    """statements built from plain local names and constants only: no evaluation in them can raise"""
+def _cannot_raise(stmts, package_handlers=False):
+    """statements built from plain local names and constants only: no evaluation in them can raise (with
+    package_handlers: ... anything the handlers at hand, which name package exception classes only, could catch:
+    `<name>.append(<name>)` runs no package code)"""
     def simple(e):
         return e is None or isinstance(e, ast.Constant) or (isinstance(e, ast.Name) and isinstance(e.ctx, ast.Load))
 
     for st in stmts:
+        if package_handlers and isinstance(st, ast.Expr) and isinstance(st.value, ast.Call) and isinstance(st.value.func, ast.Attribute) and isinstance(st.value.func.value, ast.Name) and st.value.func.attr in ("append", "add", "extend") and not st.value.keywords and all(simple(x) for x in st.value.args):
+            continue
         if isinstance(st, (ast.Pass, ast.Break, ast.Continue)):
             continue
         if isinstance(st, ast.Return) and simple(st.value):
@@ -2114,7 +2118,10 @@ def _canon_stmt(s):
         s.finalbody = canon_block(s.finalbody)
         # `try: A except ..: H else: B` with B unable to raise (returns / assignments of names and constants, tests of
         # plain names)  ==  `try: A; B except ..: H`
-        if s.orelse and s.handlers and _cannot_raise(s.orelse):
+        import builtins as _bi
+
+        pkg_only = bool(s.handlers) and all(h.type is not None and all(isinstance(t, ast.Name) and not hasattr(_bi, t.id) for t in (h.type.elts if isinstance(h.type, ast.Tuple) else [h.type])) for h in s.handlers)
+        if s.orelse and s.handlers and _cannot_raise(s.orelse, package_handlers=pkg_only):
             s.body = canon_block(list(s.body) + list(s.orelse))
             s.orelse = []
         # `except E [as e]: raise [e]` changes nothing (but the traceback): a try with only such handlers is its body
